@@ -128,3 +128,10 @@ PROPS["C11"] = {"units": [
     rapid_unit("sequential", "udpl", "^TestC11Sequential$", 600, 16 * 6000, overlay="full"),
     rapid_unit("concurrent", "udpl", "^TestC11Concurrent$", 150, 16 * 1500, overlay="full"),
 ]}
+
+PROPS["C10"] = {"units": [
+    plain_unit("regress", "rdl", "^TestRegressC10", overlay="plain", env={"GODEBUG": "asynctimerchan=1"}),
+    plain_unit("regress-async0", "rdl", "^TestRegressC10", overlay="plain", env={"GODEBUG": "asynctimerchan=0"}),
+    rapid_unit("deadlines-async1", "rdl", "^TestC10Deadlines$", 150, 16 * 400, overlay="plain", env={"GODEBUG": "asynctimerchan=1"}),
+    rapid_unit("deadlines-async0", "rdl", "^TestC10Deadlines$", 150, 16 * 400, overlay="plain", env={"GODEBUG": "asynctimerchan=0"}),
+]}
